@@ -1917,7 +1917,7 @@ def check_main(chk, mn, fi=None) -> Optional[str]:
     except Raised as ex:
         # KeyError / IndexError / ... of an interpreted dict or list operation, or an explicit raise: the program's own behaviour
         chk.robust |= {"report-clashes"}
-        chk.violation("report-clashes", mn.site(ex.node) if ex.node is not None else mn.where, f"main raises {ex.what} on the representative clash list (6 clashes, residue pairs in and against their sort order): no complete report / CSV is produced", _K(mn, "raises"))
+        chk.violation("report-clashes", mn.site(ex.node) if ex.node is not None else mn.where, f"main raises {ex.what} on the representative clash list ({len(L)} clashes, residue pairs in and against their sort order): no complete report / CSV is produced", _K(mn, "raises"))
         for rule in ("report-grouping", "report-maxima", "report-loops"):
             chk.ok(rule, mn.where, "not evaluated: main raises on the representative clash list (reported by rule `report-clashes`)")
         return None
@@ -1930,6 +1930,16 @@ def check_main(chk, mn, fi=None) -> Optional[str]:
     chk.robust |= {"report-clashes", "report-grouping", "report-maxima", "report-loops"}
     if fi is not None:
         check_cli_binding(chk, mn, fi, cap)
+    # read_metadata(file) reads file.name: it needs the open file, not the path string
+    chk.robust |= {"csv-metadata-arg"}
+    msite = next((mn.site(n) for n in ast.walk(mn.node) if isinstance(n, ast.Call) and norm(n.func).split(".")[-1] == "read_metadata"), site)
+    for got in cap.meta_args:
+        if isinstance(got, FileS):
+            chk.ok("csv-metadata-arg", msite, f"read_metadata receives an open file (of `{got.name}`) on the evaluated run with --csv")
+        elif isinstance(got, (str, PathS)):
+            chk.violation("csv-metadata-arg", msite, f"read_metadata (which reads file.name) receives the path `{got}` and not an open file: --csv raises AttributeError as soon as one clash is found, no CSV is written", _K(mn, "read_metadata(path)"))
+        else:
+            chk.error("csv-metadata-arg", msite, f"argument `{str(got)[:40]}` of read_metadata not classified (path or open file)")
     site_of = {}
     for ln_, st_ in zip(cap.lines, cap.sites):
         site_of.setdefault(ln_, st_)
